@@ -42,6 +42,11 @@ theorem cwnd_bounds_step (s : Sender) (op : Op)
     (s.step op).1.cwnd ≤ maxCwndPackets * (s.step op).1.mds + (s.step op).1.mds :=
   inv_step s op h
 
+example : ∃ s : Sender, (2 * s.mds ≤ s.cwnd ∧ s.cwnd ≤ maxCwndPackets * s.mds + s.mds) ∧ s.cwnd = 2629 ∧ s.mds = 1252 :=
+  ⟨(Sender.new 1252 Rtt.default).run
+      [.lost 1 0 0, .lost 2 0 0, .lost 3 0 0, .lost 4 0 0, .lost 5 0 0, .lost 6 0 0, .lost 7 0 0, .lost 8 0 0,
+       .acked 9 1252 2504 0, .acked 10 1252 2504 0, .lost 11 1252 2504], by decide⟩
+
 /-- Full strength: after any history from `NewCubicSender(…, mds0, reno=true, …)`, for any initial
 RTT state, the window is at least two full-size packets and at most the configured maximum plus
 one packet, for the *current* maximum datagram size. -/
@@ -88,6 +93,17 @@ theorem shrinks_once_per_window (s : Sender) (ops : List Op)
     (h : ∀ op ∈ ops, ∀ pn b p, op = Op.lost pn b p → pn ≤ s.lastCutback) :
     s.cwnd ≤ (s.run ops).cwnd ∧ (s.run ops).lastCutback = s.lastCutback :=
   run_old_loss ops s h
+
+-- a state in recovery (cut-back mark 7) and a history with two more losses from the same window
+example :
+    let s := (Sender.new 1252 Rtt.default).run [.sent 5 7 1252 true, .lost 3 1252 1252]
+    let ops := [Op.lost 5 1252 1252, Op.acked 4 1252 40000 9, Op.lost 7 1252 1252, Op.setMDS 1452]
+    s.lastCutback = 7 ∧ s.cwnd = 28044 ∧ (∀ op ∈ ops, ∀ pn b p, op = Op.lost pn b p → pn ≤ s.lastCutback) ∧
+      (s.run ops).cwnd = 28044 := by
+  refine ⟨by decide, by decide, ?_, by decide⟩
+  intro op hop pn b p e
+  simp only [List.mem_cons, List.not_mem_nil, or_false] at hop
+  rcases hop with h | h | h | h <;> subst h <;> cases e <;> decide
 
 /-- … in particular right after a cut-back: further losses of packets sent no later than the
 cut-back (numbers ≤ the largest sent at that moment) do not shrink the window again. -/
@@ -179,6 +195,10 @@ theorem send_gating (s : Sender) (amp : Bool) (tracked maxTracked maxOutstanding
         · exact (canSend_iff s bytesInFlight).1 h4
         · simp [h1, h2, h3, h4] at h
 
+example : sendMode (Sender.new 1252 Rtt.default) false 0 25000 20000 0 .none 40063 1 = .any ∧
+    sendMode (Sender.new 1252 Rtt.default) false 0 25000 20000 0 .none 40064 1 = .ack ∧
+    sendMode (Sender.new 1252 Rtt.default) false 0 25000 20000 1 .ptoAppData 99999 1 = .ptoAppData := by decide
+
 /-! ### (5) pacer -/
 
 /-- `Budget(now)` never exceeds one burst (`maxBurstSize`) -/
@@ -213,6 +233,35 @@ theorem pacer_interval_bound (s : Sender) (t pn : Int) (b : Nat) (r : Bool) (res
     authBytes s (.sent t pn b r :: rest) ≤
       maxBurstSize s.bw s.pacer.mds + allowance (s.step (.sent t pn b r)).1 rest :=
   pacer_interval s t pn b r rest ht hm hyp
+
+/-- The property's last sentence: over any interval `[t, t_end]` that starts with a send at `t ≠ 0`,
+with non-decreasing send times, if the pacer's bandwidth `⌊1.25·bw⌋` (bytes/s) is at most `W` at
+every send of the interval, the authorised bytes are at most one burst plus `⌊W·(t_end − t)/10⁹⌋`. -/
+theorem pacer_interval_elapsed (s : Sender) (t pn : Int) (b : Nat) (r : Bool) (rest : List Op) (W : Nat)
+    (ht : t ≠ 0) (hm : PacerMDSOk s.pacer.mds) (hyp : PacerHyp rest)
+    (hmono : TimesMono t rest) (hbw : BwBounded W (s.step (.sent t pn b r)).1 rest) :
+    authBytes s (.sent t pn b r :: rest) ≤
+      maxBurstSize s.bw s.pacer.mds + W * (lastSendTime t rest - t).toNat / nsPerSecond := by
+  have h1 := pacer_interval s t pn b r rest ht hm hyp
+  have hp := step_pacer s (.sent t pn b r)
+  simp only [] at hp
+  have hT : (s.step (.sent t pn b r)).1.pacer.lastSent = t := by
+    rw [hp]; exact (sentPacket_spec s.pacer s.bw t b).1
+  have h2 := allowance_le_elapsed W rest (s.step (.sent t pn b r)).1 (by rw [hT]; exact hmono) hbw
+  rw [hT] at h2
+  omega
+
+-- hypotheses satisfiable: three sends 1 ms apart on a fresh sender (bandwidth 500800 B/s)
+example :
+    let s := Sender.new 1252 Rtt.default
+    let rest := [Op.sent 2000000 2 1252 true, Op.acked 1 1252 2504 2500000, Op.sent 3000000 3 1252 true]
+    PacerMDSOk s.pacer.mds ∧ TimesMono 1000000 rest ∧
+      BwBounded 600000 (s.step (.sent 1000000 1 1252 true)).1 rest ∧
+      authBytes s (.sent 1000000 1 1252 true :: rest) = 3756 := by
+  refine ⟨?_, ?_, ?_, by decide⟩
+  · simp only [PacerMDSOk]; decide
+  · simp only [TimesMono]; decide
+  · simp only [BwBounded]; decide
 
 /-- the bandwidth the pacer uses is at most 1.25 × the estimate `cwnd·10⁹/srtt` (exact arithmetic);
 64-bit wrap-around can only lower it -/
@@ -253,6 +302,11 @@ theorem timeUntilSend_no_panic (s : Sender) (hc : s.cwnd ≤ 2305843009)
   by_cases hB : s.pacer.budgetAtLastSent ≥ s.pacer.mds
   · rw [if_pos hB]; exact Option.some_ne_none _
   · rw [if_neg hB, if_neg hbw]; exact Option.some_ne_none _
+
+example :
+    let s := (Sender.new 1252 Rtt.default).run [.sent 1 1 13000 true]
+    s.cwnd ≤ 2305843009 ∧ 0 < s.rtt.srtt ∧ s.rtt.srtt.toNat ≤ s.cwnd * nsPerSecond ∧ s.pacer.mds ≤ 2 ^ 32 ∧
+      s.timeUntilSend = some 2555912 := by decide
 
 /-- … and the panic is real outside that range: a smoothed RTT of 50 000 s makes the bandwidth 0 -/
 theorem timeUntilSend_panic_witness :
